@@ -779,6 +779,38 @@ proof fn lemma_sum_indicator<C>(cs: Seq<C>, f: spec_fn(C) -> int, g: spec_fn(C) 
     }
 }
 
+// ---------------------------------------------------------------- stepping: which cut the children sit at after a move
+spec fn le_ent(k: Seq<u8>, t: u64) -> spec_fn(Ent) -> bool { |x: Ent| !kt_lt(k, t, x.key, x.ts) }   // x <= (k, t)
+spec fn ge_ent(k: Seq<u8>, t: u64) -> spec_fn(Ent) -> bool { |x: Ent| !kt_lt(x.key, x.ts, k, t) }   // x >= (k, t)
+proof fn lemma_le_closed(k: Seq<u8>, t: u64)
+    ensures down_closed(le_ent(k, t)), up_closed(ge_ent(k, t)),
+        down_closed(|x: Ent| true), down_closed(|x: Ent| false), up_closed(|x: Ent| true), up_closed(|x: Ent| false),
+{
+    assert forall|x: Ent, y: Ent| #[trigger] le_ent(k, t)(y) && !kt_lt(y.key, y.ts, x.key, x.ts) implies #[trigger] le_ent(k, t)(x) by {
+        if kt_lt(k, t, x.key, x.ts) {
+            lemma_kt_total(x.key, x.ts, y.key, y.ts);
+            if kt_lt(x.key, x.ts, y.key, y.ts) { lemma_kt_trans(k, t, x.key, x.ts, y.key, y.ts); }
+        }
+    }
+    assert forall|x: Ent, y: Ent| #[trigger] ge_ent(k, t)(y) && !kt_lt(x.key, x.ts, y.key, y.ts) implies #[trigger] ge_ent(k, t)(x) by {
+        if kt_lt(x.key, x.ts, k, t) {
+            lemma_kt_total(x.key, x.ts, y.key, y.ts);
+            if kt_lt(y.key, y.ts, x.key, x.ts) { lemma_kt_trans(y.key, y.ts, x.key, x.ts, k, t); }
+        }
+    }
+}
+proof fn lemma_sum_pointwise<C>(a: Seq<C>, f: spec_fn(C) -> int, b: Seq<C>, g: spec_fn(C) -> int)
+    requires a.len() == b.len(), forall|i: int| 0 <= i < a.len() ==> f(#[trigger] a[i]) == g(b[i])
+    ensures sumf(a, f) == sumf(b, g)
+    decreases a.len()
+{
+    if a.len() > 0 {
+        assert forall|i: int| 0 <= i < a.drop_last().len() implies f(#[trigger] a.drop_last()[i]) == g(b.drop_last()[i]) by { assert(a.drop_last()[i] == a[i]); assert(b.drop_last()[i] == b[i]); }
+        lemma_sum_pointwise(a.drop_last(), f, b.drop_last(), g);
+        assert(a.last() == a[a.len() - 1] && b.last() == b[b.len() - 1]);
+    }
+}
+
 // std contract of slice::swap (ASSUMED)
 pub assume_specification<T> [<[T]>::swap] (s: &mut [T], a: usize, b: usize)
     requires a < old(s)@.len(), b < old(s)@.len(),
@@ -971,6 +1003,152 @@ impl<C: Cursor> MergingCursor<C> {
         &&& forall|i: int| 1 <= i < cs.len() ==> (#[trigger] cs[i]).pos() == 0
         &&& heap_from(cs, Comparator::Forward, 1)
         &&& forall|i: int| 1 <= i < cs.len() ==> !lessk(Comparator::Forward, key_at((#[trigger] cs[i]).ents(), 0), key_at(cs[0].ents(), 0))
+    }
+}
+
+impl<C: Cursor> MergingCursor<C> {
+    // the cut the children sit at once every child has stepped forward out of a Reverse rest state
+    spec fn low_rev(&self) -> spec_fn(Ent) -> bool {
+        if self.rev_b() { |x: Ent| true } else { match key_of_child(self.cursors@[0]) { Some(e) => le_ent(e.0, e.1), None => |x: Ent| false } }
+    }
+    // ... and once the root has stepped forward out of a Forward rest state
+    spec fn low_fwd(&self) -> spec_fn(Ent) -> bool {
+        if self.fwd_b() { |x: Ent| false } else { match key_of_child(self.cursors@[0]) { Some(e) => le_ent(e.0, e.1), None => |x: Ent| true } }
+    }
+    spec fn stepped_fwd(c2: C, c: C) -> bool {
+        c2.wf() && c2.ents() == c.ents() && c2.pos() == (if c.pos() < c.ents().len() { c.pos() + 1 } else { c.pos() })
+    }
+    proof fn lemma_child_wf(&self, i: int)
+        requires self.wf(), 0 <= i < self.n()
+        ensures self.cursors@[i].wf(), sorted(self.cursors@[i].ents()), -1 <= self.cursors@[i].pos() <= self.cursors@[i].ents().len(),
+            self.cursors@[i].key_spec() == key_of_child(self.cursors@[i]),
+    {
+        assert(allq(self.cursors@, |c: C| c.wf()));
+        self.cursors@[i].lemma_cursor_laws();
+    }
+    // Reverse -> Forward: child i after its next()
+    proof fn lemma_switch_rf(&self, i: int, c2: C)
+        requires self.wf(), self.comparator == Comparator::Reverse, 0 <= i < self.n(), Self::stepped_fwd(c2, self.cursors@[i])
+        ensures at_cut(c2, self.low_rev())
+    {
+        let cs = self.cursors@; let c = cs[i]; let s = c.ents();
+        self.lemma_child_wf(i); self.lemma_child_wf(0);
+        if self.rev_b() {
+        } else {
+            match key_of_child(cs[0]) {
+                Some(e) => {
+                    assert((|c: C| c.pos() == cle(c.ents(), e.0, e.1) - 1)(c));
+                    lemma_cle(s, e.0, e.1);
+                }
+                None => { assert((|c: C| c.pos() == -1)(c)); }
+            }
+        }
+    }
+    proof fn lemma_switch_rf_pos(&self, f1: Seq<C>)
+        requires self.wf(), self.comparator == Comparator::Reverse, f1.len() == self.n(),
+            forall|i: int| 0 <= i < f1.len() ==> Self::stepped_fwd(#[trigger] f1[i], self.cursors@[i]),
+        ensures sumf(f1, |c: C| c.pos()) == (if self.pos() < self.ents().len() { self.pos() + 1 } else { self.pos() })
+    {
+        let cs = self.cursors@;
+        self.lemma_cursor_laws();
+        lemma_total_is_len(cs);
+        self.lemma_child_wf(0);
+        if self.rev_b() {
+            assert forall|i: int| 0 <= i < f1.len() implies (|c: C| c.pos())(#[trigger] f1[i]) == (|c: C| c.ents().len() as int)(cs[i]) by { self.lemma_child_wf(i); }
+            lemma_sum_pointwise(f1, |c: C| c.pos(), cs, |c: C| c.ents().len() as int);
+            lemma_sum_root_others(cs, |c: C| c.pos(), |c: C| c.ents().len() as int, 0, -1);
+        } else {
+            match key_of_child(cs[0]) {
+                Some(e) => {
+                    assert forall|i: int| 0 <= i < f1.len() implies (|c: C| c.pos())(#[trigger] f1[i]) == (|c: C| cle(c.ents(), e.0, e.1))(cs[i]) by {
+                        self.lemma_child_wf(i);
+                        assert((|c: C| c.pos() == cle(c.ents(), e.0, e.1) - 1)(cs[i]));
+                        lemma_cle(cs[i].ents(), e.0, e.1);
+                    }
+                    lemma_sum_pointwise(f1, |c: C| c.pos(), cs, |c: C| cle(c.ents(), e.0, e.1));
+                    lemma_sum_cle(cs, 0, cs[0].pos());
+                    lemma_sum_root_others(cs, |c: C| c.pos(), |c: C| cle(c.ents(), e.0, e.1), -1, -1);
+                    lemma_member_rank(cs, 0, cs[0].pos());
+                }
+                None => {
+                    assert forall|i: int| 0 <= i < f1.len() implies (|c: C| c.pos())(#[trigger] f1[i]) == (|c: C| 0int)(cs[i]) by {
+                        self.lemma_child_wf(i);
+                        assert((|c: C| c.pos() == -1)(cs[i]));
+                    }
+                    lemma_sum_pointwise(f1, |c: C| c.pos(), cs, |c: C| 0int);
+                    lemma_sum_zero(cs);
+                    lemma_sum_root_others(cs, |c: C| c.pos(), |c: C| 0int, -1, -1);
+                }
+            }
+        }
+    }
+
+    // Forward step: the root has stepped forward, everyone else stands still
+    proof fn lemma_step_f(&self, i: int, c2: C)
+        requires self.wf(), self.comparator == Comparator::Forward, 0 <= i < self.n(),
+            i == 0 ==> Self::stepped_fwd(c2, self.cursors@[0]), i > 0 ==> c2 == self.cursors@[i],
+        ensures at_cut(c2, self.low_fwd())
+    {
+        let cs = self.cursors@; let c = cs[i]; let s = c.ents();
+        self.lemma_child_wf(i); self.lemma_child_wf(0);
+        if self.fwd_b() {
+        } else {
+            match key_of_child(cs[0]) {
+                Some(e) => {
+                    assert((|c: C| c.pos() == clt(c.ents(), e.0, e.1))(c));
+                    lemma_cle(s, e.0, e.1); lemma_clt(s, e.0, e.1); lemma_cle_clt(s, e.0, e.1);
+                    let er = cs[0].ents()[cs[0].pos()];
+                    if i == 0 {
+                        assert(s[c.pos()].key == e.0 && s[c.pos()].ts == e.1);
+                    } else if exists|j: int| 0 <= j < s.len() && #[trigger] s[j].key == e.0 && s[j].ts == e.1 {
+                        let j = choose|j: int| 0 <= j < s.len() && #[trigger] s[j].key == e.0 && s[j].ts == e.1;
+                        assert(cs[i].ents()[j].key == cs[0].ents()[cs[0].pos()].key);
+                    }
+                }
+                None => { assert((|c: C| c.pos() == c.ents().len())(c)); }
+            }
+        }
+    }
+    proof fn lemma_step_f_pos(&self, f1: Seq<C>)
+        requires self.wf(), self.comparator == Comparator::Forward, f1.len() == self.n(),
+            Self::stepped_fwd(f1[0], self.cursors@[0]), forall|i: int| 1 <= i < f1.len() ==> #[trigger] f1[i] == self.cursors@[i],
+        ensures sumf(f1, |c: C| c.pos()) == (if self.pos() < self.ents().len() { self.pos() + 1 } else { self.pos() })
+    {
+        let cs = self.cursors@;
+        self.lemma_cursor_laws();
+        lemma_total_is_len(cs);
+        self.lemma_child_wf(0);
+        assert(f1 =~= cs.update(0, f1[0]));
+        lemma_sum_update(cs, 0, f1[0], |c: C| c.pos());
+        if self.fwd_b() {
+            lemma_sum_only_root(cs, |c: C| c.pos());
+        } else {
+            match key_of_child(cs[0]) {
+                Some(e) => { lemma_sum_eq(cs, |c: C| c.pos(), |c: C| clt(c.ents(), e.0, e.1)); lemma_member_rank(cs, 0, cs[0].pos()); }
+                None => { assert((|c: C| c.pos() == c.ents().len())(cs[0])); lemma_sum_eq(cs, |c: C| c.pos(), |c: C| c.ents().len() as int); }
+            }
+        }
+    }
+    proof fn lemma_step_f_heap(&self, f1: Seq<C>)
+        requires self.wf(), self.comparator == Comparator::Forward, f1.len() == self.n(), forall|i: int| 1 <= i < f1.len() ==> #[trigger] f1[i] == self.cursors@[i],
+        ensures heap_from(f1, Comparator::Forward, 1)
+    {
+        let cs = self.cursors@;
+        assert forall|j: int| 1 < j < f1.len() && (j - 1) / 2 >= 1 implies !lessk(Comparator::Forward, keyof(f1, j), #[trigger] keyof(f1, (j - 1) / 2)) by {
+            assert(f1[j] == cs[j] && f1[(j - 1) / 2] == cs[(j - 1) / 2]);
+            assert(!lessk(Comparator::Forward, keyof(cs, j), keyof(cs, (j - 1) / 2)));
+        }
+    }
+    // what every move ends with: the children sit at one cut and form a Forward heap again
+    proof fn lemma_land_fwd(&self, low: spec_fn(Ent) -> bool)
+        requires self.base(), self.comparator == Comparator::Forward, down_closed(low),
+            allq(self.cursors@, |c: C| at_cut(c, low)), heap_from(self.cursors@, Comparator::Forward, 0),
+        ensures self.wf(), self.fwd_a()
+    {
+        let f2 = self.cursors@;
+        assert(allq(f2, |c: C| c.wf())) by { assert forall|i: int| 0 <= i < f2.len() implies (#[trigger] f2[i]).wf() by { assert((|c: C| at_cut(c, low))(f2[i])); } }
+        assert forall|i: int| 0 <= i < f2.len() implies (#[trigger] f2[i]).key_spec() == key_of_child(f2[i]) by { assert((|c: C| at_cut(c, low))(f2[i])); f2[i].lemma_cursor_laws(); }
+        lemma_heap_top_fwd(f2, low);
     }
 }
 
@@ -1214,7 +1392,75 @@ impl<C: Cursor> Cursor for MergingCursor<C> {
 //@ external-body
 //@ end
 //@ extract sst/src/merging_cursor.rs | impl Cursor for MergingCursor<C> :: fn next
-//@ external-body
+//@ rewrite X13 `for c in self.cursors.iter_mut() {` => `for idx in 0..self.cursors.len() {`
+//@ rewrite X13 `c.next()?;` => `self.cursors[idx].next()?;`
+//@ bodystart <<
+        let ghost low = if self.comparator == Comparator::Reverse { self.low_rev() } else { self.low_fwd() };
+        let ghost tgt = if self.pos() < self.ents().len() { self.pos() + 1 } else { self.pos() };
+        proof {
+            self.lemma_child_wf(0);
+            match key_of_child(self.cursors@[0]) { Some(e) => { lemma_le_closed(e.0, e.1); } None => { lemma_le_closed(Seq::<u8>::empty(), 0); } }
+            assert(down_closed(low));
+        }
+//@ >>
+//@ loop 0 <<
+                invariant
+                    self.comparator == Comparator::Reverse, self.cursors@.len() == old(self).cursors@.len(),
+                    old(self).wf(), old(self).comparator == Comparator::Reverse, all_base(self.cursors@), same_tables(self.cursors@, old(self).cursors@),
+                    low == old(self).low_rev(),
+                    forall|j: int| 0 <= j < idx ==> Self::stepped_fwd(#[trigger] self.cursors@[j], old(self).cursors@[j]),
+                    forall|j: int| idx <= j < self.cursors@.len() ==> self.cursors@[j] == old(self).cursors@[j],
+//@ >>
+//@ startloop 0 <<
+                let ghost pre = self.cursors@;
+                proof { old(self).lemma_child_wf(idx as int); }
+//@ >>
+//@ endloop 0 <<
+                proof {
+                    assert forall|j: int| 0 <= j < idx + 1 implies Self::stepped_fwd(#[trigger] self.cursors@[j], old(self).cursors@[j]) by { if j < idx { assert(self.cursors@[j] == pre[j]); } }
+                }
+//@ >>
+//@ before `self.comparator = Comparator::Forward;` <<
+            let ghost f1 = self.cursors@;
+            proof {
+                lemma_same_tables(f1, old(self).cursors@);
+                assert forall|i: int| 0 <= i < f1.len() implies at_cut(#[trigger] f1[i], low) by { old(self).lemma_switch_rf(i, f1[i]); }
+                old(self).lemma_switch_rf_pos(f1);
+            }
+//@ >>
+//@ after `self.heapify();` <<
+            proof {
+                let f2 = self.cursors@;
+                lemma_family_invariants(f2, f1);
+                lemma_family_merged(f1, f2);
+                assert(allq(f1, |c: C| at_cut(c, low)));
+                assert(allq(f2, |c: C| at_cut(c, low)));
+                self.lemma_land_fwd(low);
+                assert(sumf(f2, |c: C| c.pos()) == sumf(f1, |c: C| c.pos()));
+            }
+//@ >>
+//@ after `self.cursors[0].next()?;` <<
+            let ghost f1 = self.cursors@;
+            proof {
+                assert(same_tables(f1, old(self).cursors@)) by { assert forall|i: int| 0 <= i < f1.len() implies (#[trigger] f1[i]).ents() == old(self).cursors@[i].ents() by { if i > 0 { assert(f1[i] == old(self).cursors@[i]); } } }
+                lemma_same_tables(f1, old(self).cursors@);
+                assert(all_base(f1)) by { assert forall|i: int| 0 <= i < f1.len() implies (#[trigger] f1[i]).wf_base() by { if i > 0 { assert(f1[i] == old(self).cursors@[i]); } } }
+                assert forall|i: int| 0 <= i < f1.len() implies at_cut(#[trigger] f1[i], low) by { if i > 0 { assert(f1[i] == old(self).cursors@[i]); } old(self).lemma_step_f(i, f1[i]); }
+                old(self).lemma_step_f_pos(f1);
+                old(self).lemma_step_f_heap(f1);
+            }
+//@ >>
+//@ after `self.percolate_down(0);` <<
+            proof {
+                let f2 = self.cursors@;
+                lemma_family_invariants(f2, f1);
+                lemma_family_merged(f1, f2);
+                assert(allq(f1, |c: C| at_cut(c, low)));
+                assert(allq(f2, |c: C| at_cut(c, low)));
+                self.lemma_land_fwd(low);
+                assert(sumf(f2, |c: C| c.pos()) == sumf(f1, |c: C| c.pos()));
+            }
+//@ >>
 //@ end
 
 //@ extract sst/src/merging_cursor.rs | impl Cursor for MergingCursor<C> :: fn key
